@@ -119,6 +119,11 @@ def fuse_facts(name, otarget, orig_out, got):
     """Input-side features of the target (for classifiers)."""
     if name in ("swap", "tile"):
         return nest_facts(otarget)
+    if name == "hoist":
+        from psyclone.psyir.nodes import CodeBlock, Loop, Return
+        loop = otarget.ancestor(Loop)
+        return {"early_exit_in_loop": bool(
+            loop is not None and loop.walk((CodeBlock, Return)))}
     if name != "fuse":
         return {}
     from psyclone.psyir.backend.fortran import FortranWriter
@@ -168,9 +173,17 @@ def nest_facts(outer):
         isinstance(outer.loop_body.children[0], Loop) else None
     facts["nest_steps"] = [wrt(outer.step_expr)] + \
         ([wrt(inner.step_expr)] if inner is not None else [])
+    from psyclone.psyir.nodes import Reference
+    from psyclone.psyir.symbols import ArrayType, DataSymbol
     written, used = {}, {}
-    for ref in outer.walk(ArrayReference):
-        txt = ",".join(wrt(i) for i in ref.indices)
+    for ref in outer.walk(Reference):
+        if isinstance(ref, ArrayReference):
+            txt = ",".join(wrt(i) for i in ref.indices)
+        elif type(ref) is Reference and isinstance(ref.symbol, DataSymbol) \
+                and isinstance(ref.symbol.datatype, ArrayType):
+            txt = "<whole array>"
+        else:
+            continue
         used.setdefault(ref.symbol.name.lower(), set()).add(txt)
         par = ref.parent
         if isinstance(par, Assignment) and par.lhs is ref:
@@ -201,9 +214,14 @@ CLASSIFIERS = {
     c.get("facts", {}).get("step") != "1",
     "tile_nonunit_step": lambda c: _is(c, "tile") and
     any(st != "1" for st in c.get("facts", {}).get("nest_steps", ["1"])),
-    # LoopSwapTrans performs no dependence analysis
-    "swap_self_dependence": lambda c: _is(c, "swap") and
+    # LoopSwapTrans performs no dependence analysis (LoopTiling2DTrans
+    # relies on it)
+    "swap_self_dependence": lambda c: (_is(c, "swap") or _is(c, "tile")) and
     bool(c.get("facts", {}).get("self_dependence")),
+    # HoistTrans moves an assignment out of a loop whose body can CYCLE /
+    # EXIT / RETURN before reaching it
+    "hoist_past_early_exit": lambda c: _is(c, "hoist") and
+    bool(c.get("facts", {}).get("early_exit_in_loop")),
     # an array written in one of the fused loops is accessed in both loops
     # through different subscripts (no dependence-distance check)
     "fuse_array_index_mismatch": lambda c: _is(c, "fuse") and
